@@ -42,7 +42,7 @@ func brokenf(format string, args ...interface{}) {
 }
 
 func isRepoPath(p string) bool {
-	return p == ModPath || strings.HasPrefix(p, ModPath+"/")
+	return p == ModPath || strings.HasPrefix(p, ModPath+"/") || p == controlsPath
 }
 
 // Load type-checks ./... in dir and builds SSA for the whole program.
@@ -153,6 +153,9 @@ func Load(dir string, withTests bool, withCG bool) *Program {
 				}
 			}()
 			all := ssautil.AllFunctions(p.SSA)
+			// AllFunctions skips methods of unexported types that nothing
+			// references; every repository function must be a node
+			p.RepoFuncs(func(f *ssa.Function) { all[f] = true })
 			p.CG = vta.CallGraph(all, cha.CallGraph(p.SSA))
 		}()
 		p.Timings["vta_s"] = time.Since(t2).Seconds()
